@@ -33,6 +33,15 @@ func (node *tagFilterNode) Execute(ctx *ExecutionContext, writer TemplateWriter)
 			if err != nil {
 				return err
 			}
+			if _, isLiteral := call.paramExpr.(*stringResolver); !isLiteral && ctx.Autoescape &&
+				!param.safe && (param.IsString() || param.isStringer()) {
+				// The body is already escaped and the result is written as is, so a
+				// parameter taken from the context must be escaped as well.
+				param, err = ApplyFilter("escape", param, nil)
+				if err != nil {
+					return err
+				}
+			}
 		} else {
 			param = AsValue(nil)
 		}
